@@ -131,7 +131,7 @@ func crashOrGuard(r *drv.Run, res *wire.Result, c *wire.Case, src string, strict
 			return true
 		}
 		if res.Guard != "" && !strict {
-			r.Inconclusive("guard " + res.Guard + " tripped on: " + oneLineN(src, 70))
+			r.GuardSkip("guard " + res.Guard + " tripped on: " + oneLineN(src, 70))
 			return true
 		}
 		sig := "worker-died"
